@@ -232,19 +232,28 @@ def part_c(ctx, I, budget):
             simple = False
         case = dict(part="c", mode=mode, groups=(ids or groups), y_train=y_train, y_test=y_test, dist=dist.tolist(), **ureq)
         store = []
+        sh = I["shapley"]
+        old_B = sh.BATCH_DISTANCE_MATRIX_SIZE
+        small_B = (it % 4 == 3)
+        if small_B:
+            sh.BATCH_DISTANCE_MATRIX_SIZE = rng.choice([1, 2, 5])      # the internal validation batch size must not matter
         try:
-            imp = I["imp"].ShapleyImportance(method="neighbor", utility=util, nn_k=1, nn_distance=lambda A, B, D=dist: D.copy())
+            # the distance callable honours whatever validation batch it is handed (validation rows carry their index)
+            imp = I["imp"].ShapleyImportance(method="neighbor", utility=util, nn_k=1,
+                                             nn_distance=lambda A, B, D=dist: D[:, [int(v) for v in np.asarray(B)[:, 0]]].copy())
             with kern.record_argsort(store):
                 res = list(np.asarray(imp.fit(X, np.array(y_train), provenance=provenance).score(Xv, np.array(y_test)), dtype=float))
         except Exception as e:  # noqa
             res = exc_name(e) + ": " + repr(e)
+        finally:
+            sh.BATCH_DISTANCE_MATRIX_SIZE = old_B
         ords = kern.orders_from(store, n_units, m)
         req = {"op": "neighbor", "prov": preq, "simple": simple, "yTrain": y_train, "yTest": y_test,
                "dist": [[kern.frs(x) for x in row] for row in dist.tolist()], "K": 1, **ureq}
         if ords is not None and ties:
             req["orders"] = ords
         ans = ctx.model(req)
-        ctx.case(case, nontrivial=(n_units >= 2 and len(classes) >= 2), sample=case, part="c", mode=mode, ties=ties, util=ukind)
+        ctx.case(case, nontrivial=(n_units >= 2 and len(classes) >= 2), sample=case, part="c", mode=mode, ties=ties, util=ukind, small_batch_constant=small_B)
         ctx.maxi(units=n_units, rows=n_rows)
         # by definition (distinct distances, or the recorded order when tied)
         spec_val = None
